@@ -230,9 +230,10 @@ func indexBoundedD(idx ssa.Value, use ssa.Instruction, depth int) (bool, string)
 func runKEYINDEX(c *Ctx) {
 	P := c.P
 	type preq struct {
-		fn  *ssa.Function
-		idx int
-		at  string
+		fn    *ssa.Function
+		idx   int
+		at    string
+		depth int
 	}
 	var reqs []preq
 	for _, fn := range P.Funcs {
@@ -306,7 +307,7 @@ func runKEYINDEX(c *Ctx) {
 				if p, isP := ir.ResolveCell(ia.Index).(*ssa.Parameter); isP && p.Parent() == fn && fn.Parent() == nil {
 					if bt, ok := p.Type().Underlying().(*types.Basic); ok && bt.Info()&types.IsInteger != 0 {
 						c.OK(pos, what, "index parameter: requirement on callers", false)
-						reqs = append(reqs, preq{fn, paramIndex(p), pos})
+						reqs = append(reqs, preq{fn, paramIndex(p), pos, 0})
 						continue
 					}
 				}
@@ -316,7 +317,8 @@ func runKEYINDEX(c *Ctx) {
 		}
 	}
 	seen := map[string]bool{}
-	for _, r := range reqs {
+	for ri := 0; ri < len(reqs); ri++ {
+		r := reqs[ri]
 		k := fmt.Sprintf("%s#%d", ir.FuncName(r.fn), r.idx)
 		if seen[k] {
 			continue
@@ -334,6 +336,12 @@ func runKEYINDEX(c *Ctx) {
 			}
 			if ok, why := indexBounded(args[r.idx], cs); ok {
 				c.OK(P.InstrPos(cs), what, why, false)
+			} else if p, isP := ir.ResolveCell(args[r.idx]).(*ssa.Parameter); isP && r.depth < 3 && p.Parent() == cs.Parent() &&
+				privateHelper(c, cs.Parent()) && isIntegerParam(p) {
+				// the caller is itself a private helper (all its callers are known) that hands its own, untested, index
+				// parameter on: the requirement moves to its callers
+				c.OK(P.InstrPos(cs), what, "the caller's own index parameter: requirement on its callers", false)
+				reqs = append(reqs, preq{cs.Parent(), paramIndex(p), r.at, r.depth + 1})
 			} else {
 				c.Violation(cs.Parent(), P.InstrPos(cs), "index argument of "+r.fn.Name()+" not known to be in range",
 					r.fn.Name()+" uses this argument as an index into Key/Value without testing it (at "+r.at+"); the caller must")
@@ -439,4 +447,9 @@ func lenMinus(v ssa.Value, seen map[ssa.Value]bool) (int64, bool) {
 		return best, len(x.Edges) > 0
 	}
 	return 0, false
+}
+
+func isIntegerParam(p *ssa.Parameter) bool {
+	bt, ok := p.Type().Underlying().(*types.Basic)
+	return ok && bt.Info()&types.IsInteger != 0
 }
